@@ -18,7 +18,8 @@ Three exhaustively enumerated program families (generators in props/_g12_gen.py)
 
 Oracle: the compiler returns within 60 CPU seconds (forked worker, CPU-time timer), no exception other than
 CompileError leaves it, no "Compiler crash in"/InternalError/traceback text; the result is positioned errors
-(file:line:col) or C code accepted by gcc -fsyntax-only (g++ too in thorough).  A family (a)/(b) text (and every
+(file:line:col) or C code accepted by gcc -fsyntax-only (thorough: also a C++-mode pass with g++ over families
+a1/a3/a6/b-nest/b-chain/c-seed; families (a)/(b) have the same bounds in both tiers).  A family (a)/(b) text (and every
 unmodified .py seed) that CPython's compile() accepts must compile without error, unless all errors are the three
 deliberate rejections named by the property (allowlist; hit count reported).
 """
@@ -39,12 +40,16 @@ LEVEL_TEXT = ('Every program of three finite families is compiled with the stage
               'adjacent-token swap of a 34-program (quick) / 63-program (thorough) .py/.pyx seed corpus and every byte of two '
               'files replaced by 6 hostile bytes.  Oracle on every input: the compiler returns within 60 CPU s, raises nothing '
               'but CompileError, prints no internal-crash text, and yields positioned errors or C accepted by gcc -fsyntax-only '
-              '(and g++ in thorough); CPython-valid inputs of (a)/(b) must be accepted unless only the three deliberate '
+              '(thorough: plus a C++-mode pass with g++ over families a1/a3/a6/b-nest/b-chain/seeds and gcc on every accepted mutant of '
+              '(c); families (a)/(b) are identical in both tiers); CPython-valid inputs of (a)/(b) must be accepted unless only the three deliberate '
               'rejections fire.')
 LEVEL_NOTE = ('Bounded grammar: blocks at nesting depth 2 hold one statement, depth-1 blocks at most two; expression pairs are '
               '(slot, parenthesised inner expression); the quick tier uses the structural compound set as outer statements at full '
-              'inner width and reduced inner sets elsewhere (thorough widens, adds nesting 3, unparenthesised insertion, C++ mode, '
-              'the full seed corpus and gcc on every accepted mutant; quick runs gcc on families (a)/(b) and the seeds).  Only '
+              'inner width and reduced inner sets elsewhere; families (a)/(b) have the same bounds in both tiers (33 118 programs with '
+              'family (c) quick); thorough adds exactly: the full 63-program seed corpus for (c), gcc on every accepted mutant, '
+              'and a C++-mode pass (cython --cplus + g++) over families a1, a3, a6, b-nest, b-chain and the seeds; the wider '
+              'grammar (nesting 3, unparenthesised insertion, 327 000 programs) does not fit the tier budget and is not run; '
+              'quick runs gcc on families (a)/(b) and the seeds.  Only '
               'compile-time behaviour is checked (generated C is syntax/type-checked by gcc, not run).  Names are chosen so that the '
               'deliberate rejections (undeclared name, definitely-unbound local, del of a closure variable) are not produced on '
               'purpose; hits are allowlisted and counted.  By-design static-typing deviations are outside the alphabet and counted '
@@ -574,7 +579,12 @@ def build_jobs(tier):
 
     # (a)
     by_fam = collections.OrderedDict()
-    for fam, tag, ctxs, body in G.family_a(tier) + G.family_closure(tier) + G.family_scope(tier):
+    # Bound of the thorough tier (the widened grammar - 327 000 programs, 1 668 packed jobs - is ~10x the tier budget):
+    # families (a) and (b) are enumerated with the SAME bounds in both tiers; thorough adds the full 63-program seed
+    # corpus for (c), gcc on every accepted mutant, and a C++-mode pass (cython --cplus + g++) over families
+    # a1 / a3 / a6 / b-nest / b-chain / c-seed.
+    gtier = 'quick'
+    for fam, tag, ctxs, body in G.family_a(gtier) + G.family_closure(gtier) + G.family_scope(gtier):
         for c in ctxs:
             pid = len(programs)
             programs.append((fam, '[%s] %s' % (c, tag), '.py', G.wrap(c, pid, body)))
@@ -584,7 +594,7 @@ def build_jobs(tier):
             new_job(kind='blocks', fam=fam, items=[(p, '.py', programs[p][3]) for p in pids[i:i + PACK]], header='')
     # (b)
     by_fam = collections.OrderedDict()
-    for fam, tag, src in G.family_b(tier):
+    for fam, tag, src in G.family_b(gtier):
         pid = len(programs)
         programs.append((fam, tag, '.py', src))
         by_fam.setdefault(fam, []).append(pid)
